@@ -82,6 +82,46 @@ class PartialParseErrorInitC(_InitC):
         yield 'returns', BoolVal(how in ('fall', 'return'))
         yield 'partial_result stored as given (same object)', BoolVal('partial_result' in a and a['partial_result'] is e['partial_result'])
         yield 'last_position stored as given', BoolVal('last_position' in a and a['last_position'] is e['last_position'])
+        # C09: the excerpt (line + caret line, built by _extract_excerpt) goes into the message UNCHANGED and starts on a fresh line - only
+        # then does its caret stand under text[index]
+        msg = (st.ghost.get('super_init') or [None])[0]
+        r = as_rope(msg) if msg is not None else None
+        ok = r is not None and len(r.pieces) >= 2 and r.pieces[-1][0] == 'opaque' and r.pieces[-1][1] == 'fmt' and r.pieces[-1][2] is e['excerpt'] \
+            and r.pieces[-2][0] == 'lit' and r.pieces[-2][1].endswith('\n')
+        yield 'the message ends with the excerpt as given, on a fresh line', BoolVal(bool(ok))
+
+    def bounded(self, cx):
+        """stand-in: real PartialParseErrors of a generated grammar; the caret line of the message points at text[index] - also when the
+        line starts with blanks or TABs"""
+        from sourcer import Grammar
+        g = Grammar('start = /[a-z]+/')
+        bad, tried = [], 0
+        for prefix in ('', 'ab\n', 'ab\n\n'):
+            for indent in ('', ' ', '   ', '\t', ' \t '):
+                for word, rest in (('abc', ' ?x'), ('q', '!'), ('abc', '\t;;')):
+                    text = prefix + indent + word + rest
+                    pos = len(prefix) + len(indent)
+                    tried += 1
+                    try:
+                        g.parse(text, pos=pos)
+                        bad.append({'text': text, 'what': 'no PartialParseError'})
+                        continue
+                    except g.PartialParseError as e_:
+                        idx = e_.last_position.index
+                        message = str(e_)
+                        lines = message.split('\n')
+                    except Exception as e_:
+                        bad.append({'text': text, 'raised': repr(e_)})
+                        continue
+                    ci = [i for i, l in enumerate(lines) if l.strip(' ') == '^']
+                    if idx != pos + len(word) or not ci or ci[-1] == 0:
+                        bad.append({'text': text, 'index': idx, 'message': message[:160], 'what': 'index / no caret line'})
+                        continue
+                    k = len(lines[ci[-1]]) - 1
+                    shown = lines[ci[-1] - 1]
+                    if k >= len(shown) or shown[k] != text[idx]:
+                        bad.append({'text': text, 'index': idx, 'message': message[:200], 'what': 'caret not under text[index]'})
+        return bad[:6], tried, '3 prefixes x 5 indentations (blanks, TABs) x 3 leftovers: caret of the PartialParseError message under text[last_position.index]'
 
 
 EXC = [ParseErrorInitC(), PartialParseErrorInitC()]
